@@ -138,5 +138,5 @@ func orderInvariant(c *Check, r *Repo) {
 	}
 	c.Decide(len(bad) == 0, "R-order-invariant", "set.go/code points are only compared, copied and stepped by one", "",
 		fmt.Sprintf("%d binary operations on code points: comparisons among themselves or with 0, and ±1 (Len and String also take interval lengths and enumerate, and are compared exactly)", sites), strings.Join(bad, "; "))
-	c.Floor("R-order-invariant", sites, 20)
+	c.Floor("R-order-invariant", sites, 5)
 }
